@@ -39,7 +39,15 @@ func tlbInit() {
 	tlbOnce.Do(func() {
 		tlbU = tlbx.NewUniverse()
 		tlbByN = map[string]*tlbType{}
-		for _, t := range tlbx.Registry {
+		types := append([]reflect.Type{}, tlbx.Registry...)
+		// the instantiated field types of tlb.Block (MERKLE_UPDATE ShardState, …): decoded on the real blocks
+		bt := reflect.TypeOf(tlb.Block{})
+		for i := 0; i < bt.NumField(); i++ {
+			if ft := bt.Field(i).Type; ft.Kind() == reflect.Struct && ft.Name() != "" {
+				types = append(types, ft)
+			}
+		}
+		for _, t := range types {
 			n := tlbx.TypeName(t)
 			if _, dup := tlbByN[n]; dup {
 				continue
@@ -50,7 +58,7 @@ func tlbInit() {
 				c, why = "not-tlb", []string{tlbx.NonWf[n]}
 			}
 			tt := &tlbType{Name: n, T: t, D: d, Class: c, Why: why}
-			if c == "model" || c == "partial" {
+			if c == "model" || c == "partial" || c == "decode" {
 				tt.Ty, tt.Env = tlbU.TyEnvText(d)
 			}
 			tlbTypes = append(tlbTypes, tt)
